@@ -320,6 +320,14 @@ func parallel(rng *rand.Rand, k int, withBad bool) scenario {
 	return b.sc
 }
 
+// the same sessions run against the registration of the service under a long name
+// (svcNames[k]): messages, close code and stop signals must not depend on the name
+func named(sc scenario, k int) scenario {
+	sc.Svc = k
+	sc.Class = fmt.Sprintf("%s@name%d", sc.Class, len(svcNames[k]))
+	return sc
+}
+
 // corpus: refutation witnesses and regression inputs, always run first ----------
 
 func corpus() []interface{} {
@@ -334,6 +342,8 @@ func corpus() []interface{} {
 		followNewFirstEnd(1, 1),            // F29: first forwarder to finish closes outChan under the second
 		followSharedBurst(2, 5),            // C15-N2: forwarders on one service channel overtake each other
 		plain(3, true),
+		named(plain(3, false), 3),          // service name of 125 characters: the stream still ends with close 1000
+		named(plain(2, true), 2),           // 100 characters, onet.Client
 		plainSlow(2, 750, false),           // the stream outlives the 500 ms write deadline of the close frame
 		clientLeaves("close", 5, 2, true),
 		clientLeaves("drop", 5, 2, false),
@@ -382,6 +392,17 @@ func genAll(rng *rand.Rand, tier string) []interface{} {
 		}
 	}
 	add(badFirst())
+	// long service names: every length, the service ends the stream / the client leaves
+	pick := 1 + rng.Intn(len(svcNames)-1)
+	for k := 1; k < len(svcNames); k++ {
+		add(named(plain(rng.Intn(6), rng.Intn(2) == 0), k))
+		if !quick || k == pick {
+			add(named(burst(1+rng.Intn(4)), k))
+			add(named(followNew(3, rng.Intn(4)), k))
+			add(named(clientLeaves([]string{"close", "drop"}[rng.Intn(2)], 4, rng.Intn(5), false), k))
+		}
+	}
+	add(named(parallel(rng, 2+rng.Intn(3), false), 1+rng.Intn(len(svcNames)-1)))
 	if !quick {
 		for _, ms := range []int{600, 900, 1500, 2500} {
 			add(plainSlow(rng.Intn(4), ms, ms%2 == 0))
